@@ -216,3 +216,18 @@ text("c03-first-fetch-uncovered", "C03", RAW, "        try:\n            varbind
 text("c03-guard-after-return", "C03", RAW, "            _, listing = await self._bulkget_varbinds(\n                [], oids, max_list_size=bulk_size\n            )\n", "            _, listing = await self._bulkget_varbinds(\n                [], oids, max_list_size=bulk_size\n            )\n            if bulk_size == 1:\n                return listing\n")
 text("c03-s-gt-form", "C03", RAW, "            if not requested < retrieved.oid:\n                raise FaultySNMPImplementation(\n                    \"The OID %s is not a successor of %s!\"\n                    % (retrieved.oid, requested)\n                )\n        return output", "            if not retrieved.oid > requested:\n                raise FaultySNMPImplementation(\n                    \"The OID %s is not a successor of %s!\"\n                    % (retrieved.oid, requested)\n                )\n        return output", expect="silent")
 text("c03-s-ifexp", "C03", RAW, "                if i < num_oids:\n                    requested = oids[i]\n                else:\n                    requested = listing[i - num_oids].oid\n", "                requested = oids[i] if i < len(oids) else listing[i - len(oids)].oid\n", expect="silent")
+
+# ---------------------------------------------------------------- C02
+text("rev-D7-bulk-dict", "C02", RAW, "            _, listing = await self._bulkget_varbinds(\n                [], oids, max_list_size=bulk_size\n            )", "            result = await self.bulkget([], oids, max_list_size=bulk_size)\n            listing = [VarBind((k), v) for k, v in result.listing.items()]", note="D7 re-introduced on the current tree: the fetcher rebuilds its list from the OID-keyed mapping")
+text("c02-bound-sum", "C02", RAW, "        expected_max_varbinds = n + (m * r)", "        expected_max_varbinds = n + m + r")
+text("c02-bound-ge", "C02", RAW, "        if n_retrieved_varbinds > expected_max_varbinds:", "        if n_retrieved_varbinds >= expected_max_varbinds:")
+text("c02-bound-no-check", "C02", RAW, "        if n_retrieved_varbinds > expected_max_varbinds:", "        if False and n_retrieved_varbinds > expected_max_varbinds:")
+text("c02-split-off-by-one", "C02", RAW, "        repeating_tmp = get_response.value.varbinds[len(scalar_oids) :]", "        repeating_tmp = get_response.value.varbinds[len(scalar_oids) + 1 :]")
+text("c02-swapped-counters", "C02", RAW, "        pdu = BulkGetRequest(request_id, non_repeaters, max_list_size, *oids)", "        pdu = BulkGetRequest(request_id, max_list_size, non_repeaters, *oids)")
+text("c02-repeaters-first", "C02", RAW, "        oids = list(scalar_oids) + list(repeating_oids)", "        oids = list(repeating_oids) + list(scalar_oids)")
+text("c02-continue-at-marker", "C02", RAW, "        for oid, value in repeating_tmp:\n            if isinstance(value, EndOfMibView):\n                break\n", "        for oid, value in repeating_tmp:\n            if isinstance(value, EndOfMibView):\n                continue\n")
+text("c02-fetcher-fixed-bulk", "C02", RAW, "            _, listing = await self._bulkget_varbinds(\n                [], oids, max_list_size=bulk_size\n            )", "            _, listing = await self._bulkget_varbinds(\n                [], oids, max_list_size=10\n            )")
+text("c02-fetcher-dedup-set", "C02", RAW, "            return listing\n\n        fetcher.__name__", "            return sorted(set(listing))\n\n        fetcher.__name__")
+text("c02-bulkwalk-sorted-roots-dropped", "C02", RAW, "        result = self.multiwalk(\n            oids,\n            fetcher=self._bulkwalk_fetcher(bulk_size),\n        )", "        result = self.multiwalk(\n            oids[:1],\n            fetcher=self._bulkwalk_fetcher(bulk_size),\n        )")
+text("c02-bulkwalk-skips", "C02", RAW, "        async for oid, value in result:\n            yield VarBind(oid, value)", "        async for oid, value in result:\n            if value.value is None:\n                continue\n            yield VarBind(oid, value)")
+text("c02-s-bound-inline", "C02", RAW, "        n = min(non_repeaters, len(oids))\n        m = max_list_size\n        r = max(len(oids) - n, 0)  # pylint: disable=invalid-name\n        expected_max_varbinds = n + (m * r)", "        expected_max_varbinds = len(scalar_oids) + max_list_size * len(repeating_oids)", expect="silent", note="equivalent because scalars are a prefix of the request")
